@@ -76,16 +76,7 @@ def postK0 (cfg : Cfg) (_e : Env) : Except Exc (FD × FD × FD) := (postOfJson c
 
 /-- one run of `POST` on the buffered body `sk` whose markup was built for `ctLoad` -/
 def postK (cfg : Cfg) (L : Lib) (e : Env) (sk : Sink) (ctLoad : Str) : Except Exc (FD × FD × FD) :=
-  if startsWithS (ctLower e) cs!"multipart/" then
-    match (match boundaryOf ctLoad with
-           | Option.none => MpOut.noMarkup
-           | some bnd => L.multipart bnd sk.body cfg.memfile) with
-    | .noMarkup => .error (mapped cfg .bodyParsingError)
-    | .markupError x => .error (parsingError cfg (.py x))
-    | .collected forms files post exc =>
-      match exc with
-      | Option.none => .ok (post, forms, files)
-      | some x => .error (if caughtByPost x then parsingError cfg x else x)
+  if startsWithS (ctLower e) cs!"multipart/" then collectMultipart cfg L sk ctLoad
   else if startsWithS (ctLower e) cs!"application/json" then
     ((jsonK cfg L e sk).bind (postOfJson cfg)).map dup
   else ((bodyStringOf cfg e sk).bind postOfUrlencoded).map dup
